@@ -27,6 +27,8 @@ structure Laws (P : Plane W) (Q : Preds W) : Prop where
   fin_ok_released : ∀ br w w', Q.wf w = true → P.fin br w = .val (w', .ok) → Q.released br w' = true
   /-- `Initialize` records revisions / replicas / no-need-update only -/
   init_frame : InitFrame P
+  /-- a successful `Initialize` leaves the workload claimed the way this plane claims it -/
+  init_ok_claimed : ∀ br ns w w' ns', Q.wf w = true → P.init br ns w = .val (w', ns', .ok) → Q.claimed br w w' = true
 
 /-- **Exposure laws** of a plane (`exposure`: how many pods of the new revision the world lets run, `allowed`: what the plan entry
     of the current batch allows), inside the region `expoOK` in which the plane's own exposure theorems hold. -/
@@ -358,6 +360,168 @@ theorem x_plan_change_falls_back (P : Plane W) (br : BR) (w : W) (o : StepOutX W
         simp [f1, f2, f3]
       · rw [hstop'] at hns; cases hns
   · rfl
+
+/-- the special-case chain never makes a release `Progressing` by itself -/
+theorem syncDecide_progressing (br : BR) (ns : Status) (ev : Event) (info : Option Workload)
+    (h : (syncDecide br ns ev info).1.phase = .progressing) : ns.phase = .progressing := by
+  generalize hr : syncDecide br ns ev info = r at h
+  unfold syncDecide at hr
+  dsimp only at hr
+  repeat' split at hr
+  all_goals
+    subst hr
+    first
+      | exact h
+      | (simp only [signalRecalculate] at h; exact h)
+      | (simp only [resetStatus] at h; cases h)
+      | (cases h)
+
+/-- **C01 / C11 `x_init_claims`** — for every lawful plane: a release becomes `Progressing` only in a reconcile that executed the
+    plane's `Initialize` successfully from a persisted `Preparing` (or unknown) phase — never through the sync step — and then the
+    workload is claimed the way the serving plane claims it (the plane's own post-condition, on the worlds before / after). -/
+theorem x_init_claims (P : Plane W) (Q : Preds W) (L : Laws P Q) (br : BR) (w : W) (o : StepOutX W) (b : BR)
+    (h : reconcileX P br w = .val o) (hb : o.br = some b) (hwf : Q.wf w = true) :
+    initClaims (Q.claimed (withFinalizer br) w o.wl) br b = true := by
+  unfold initClaims
+  split
+  · rename_i hc
+    obtain ⟨hnp, hp'⟩ := hc
+    by_cases hs : stoppedX P br w = true
+    · exfalso
+      obtain ⟨ev, info, hst, _⟩ := stoppedX_status P br w o b h hb hs
+      rw [hst, refresh_phase] at hp'
+      have := syncDecide_progressing _ _ _ _ hp'
+      unfold initializedStatus at this
+      split at this
+      · simp [resetStatus] at this
+      · exact hnp this
+    · have hns : stoppedX P br w = false := by simpa using hs
+      obtain ⟨ns', w', rq, er, hex, hb', hw⟩ := reconcileX_exec P br w o h hns
+      rw [hb'] at hb; simp only [Option.some.injEq] at hb; subst hb
+      simp only at hp'
+      -- not Progressing before: `executeX` ran `Initialize`, `Finalize` or nothing
+      unfold executeX at hex
+      dsimp only at hex
+      have hprep : ∀ m : Status, execPreparingX P (withFinalizer br) m w = .val (ns', w', rq, er) → m.phase ≠ .progressing →
+          ns'.phase = .progressing → Q.claimed (withFinalizer br) w w' = true := by
+        intro m hh hm hpr
+        unfold execPreparingX at hh
+        split at hh
+        · cases hh
+        · rename_i r hr
+          split at hh
+          · rename_i hok
+            simp only [Out.val.injEq, Prod.mk.injEq] at hh
+            obtain ⟨_, h2, _⟩ := hh; subst h2
+            have : P.init (withFinalizer br) m w = .val (r.1, r.2.1, .ok) := by
+              rw [hr]; congr 1; exact Prod.ext rfl (Prod.ext rfl hok)
+            exact L.init_ok_claimed _ _ _ _ _ hwf this
+          · simp only [Out.val.injEq, Prod.mk.injEq] at hh
+            obtain ⟨h1, _⟩ := hh; subst h1
+            obtain ⟨f1, _⟩ := L.init_frame _ _ _ _ _ _ hr
+            rw [f1] at hpr; exact absurd hpr hm
+      rw [hw]
+      cases hph : br.status.phase
+      case progressing => exact absurd hph hnp
+      case preparing =>
+        have hn : normPhase br.status = br.status := by unfold normPhase; simp [hph]
+        rw [hn] at hex; simp only [hph] at hex
+        exact hprep _ hex (by rw [hph]; decide) hp'
+      case finalizing =>
+        exfalso
+        have hn : normPhase br.status = br.status := by unfold normPhase; simp [hph]
+        rw [hn] at hex; simp only [hph] at hex
+        unfold execFinalizingX at hex
+        split at hex
+        · cases hex
+        · split at hex <;> simp only [Out.val.injEq, Prod.mk.injEq] at hex <;> obtain ⟨h1, _⟩ := hex <;> subst h1
+          · cases hp'
+          · rw [hph] at hp'; cases hp'
+      case completed =>
+        exfalso
+        have hn : normPhase br.status = br.status := by unfold normPhase; simp [hph]
+        rw [hn] at hex; simp only [hph] at hex
+        simp only [Out.val.injEq, Prod.mk.injEq] at hex
+        obtain ⟨h1, _⟩ := hex; subst h1
+        rw [hph] at hp'; cases hp'
+      case empty =>
+        have hn : normPhase br.status = { br.status with phase := .preparing } := by unfold normPhase; simp [hph]
+        rw [hn] at hex; dsimp only at hex
+        exact hprep _ hex (by intro hc; cases hc) hp'
+      case other =>
+        have hn : normPhase br.status = { br.status with phase := .preparing } := by unfold normPhase; simp [hph]
+        rw [hn] at hex; dsimp only at hex
+        exact hprep _ hex (by intro hc; cases hc) hp'
+  · rfl
+
+/-- **C11.iv `x_scaling_restarts`** — for every plane: when the plane's `SyncWorkloadInformation` reports the scaling event for a
+    `Progressing` release whose plan is neither finalizing, changed nor unhealthy, the reconcile restarts the batch (`Upgrading`,
+    ready time cleared), records the new size, keeps phase and cursor, and does not act in this round. -/
+theorem x_scaling_restarts (P : Plane W) (br : BR) (w : W) (o : StepOutX W) (b : BR)
+    (h : reconcileX P br w = .val o) (hb : o.br = some b) :
+    scalingRestarts (scaledX P br w) br b = true ∧
+    (∀ r, scaledX P br w = some r → br.status.phase = .progressing → isPlanFinalizing br = false → isPlanChanged br = false →
+      isPlanUnhealthy br = false → br.status.observedReplicas ≠ r → o.wl = w) := by
+  have key : ∀ r, scaledX P br w = some r → br.status.phase = .progressing → isPlanFinalizing br = false →
+      isPlanChanged br = false → isPlanUnhealthy br = false → br.status.observedReplicas ≠ r →
+      (b.status.batchState = .upgrading ∧ b.status.hasReadyTime = false ∧ b.status.observedReplicas = r ∧
+       b.status.phase = .progressing ∧ b.status.currentBatch = br.status.currentBatch) ∧ o.wl = w := by
+    intro r hsc hp hf hc hu hne
+    -- the plane reported the scaling event with `r` replicas
+    unfold scaledX at hsc
+    have hev : ∃ i, P.syncInfo (withFinalizer br) (initializedStatus br.status) w = .val (.replicasChanged, some i) ∧ i.replicas = r := by
+      split at hsc
+      · rename_i i hi; simp only [Option.some.injEq] at hsc; exact ⟨i, hi, hsc⟩
+      · cases hsc
+    obtain ⟨i, hi, hir⟩ := hev
+    have hinit : initializedStatus br.status = br.status := by simp [initializedStatus, hp]
+    rcases reconcileX_cases P br w o h with ⟨_, hpc, _, _, _⟩ | ⟨_, s, hsync, hrest⟩
+    · rw [hp] at hpc; cases hpc
+    · obtain ⟨ev, info, hsi, hst, hstop⟩ := syncStatusX_val P _ _ w s hsync
+      rw [hi] at hsi
+      simp only [Out.val.injEq, Prod.mk.injEq] at hsi
+      obtain ⟨hev, hinfo⟩ := hsi
+      subst hev; subst hinfo
+      have hf' : isPlanFinalizing (withFinalizer br) = false := hf
+      have hc' : isPlanChanged (withFinalizer br) = false := hc
+      have hu' : isPlanUnhealthy (withFinalizer br) = false := hu
+      have hdec : syncDecide (withFinalizer br) br.status .replicasChanged (some i) =
+          ({ br.status with hasReadyTime := false, batchState := .upgrading, observedReplicas := i.replicas }, false) := by
+        unfold syncDecide
+        have hpc : (withFinalizer br).status.phase ≠ .completed := by simp [withFinalizer, hp]
+        have hp1 : (withFinalizer br).status.phase = .progressing := hp
+        simp [hf', hc', hu', hp1]
+      rw [hinit, hdec] at hst hstop
+      have hobs : s.status.observedReplicas = r := by
+        rw [hst]; unfold refreshStatus; simp [hir]
+      have hdiff : s.status ≠ br.status := by
+        intro heq; rw [heq] at hobs; exact hne hobs
+      rcases hrest with ⟨_, hb', hw⟩ | ⟨hns, _⟩
+      · rw [hb'] at hb; simp only [Option.some.injEq] at hb; subst hb
+        dsimp only
+        refine ⟨?_, hw⟩
+        rw [hst]
+        unfold refreshStatus
+        simp [hir, hp]
+      · exfalso
+        rw [hstop] at hns
+        simp only [Bool.false_or, decide_eq_false_iff_not, ne_eq, Decidable.not_not] at hns
+        rw [← hst] at hns
+        exact hdiff (by simpa [withFinalizer] using hns)
+  constructor
+  · unfold scalingRestarts
+    cases hsc : scaledX P br w with
+    | none => rfl
+    | some r =>
+      simp only []
+      split
+      · rename_i hc
+        obtain ⟨hp, hf, hc', hu, hne⟩ := hc
+        obtain ⟨⟨f1, f2, f3, f4, f5⟩, _⟩ := key r hsc hp (by simpa using hf) (by simpa using hc') (by simpa using hu) hne
+        simp [f1, f2, f3, f4, f5]
+      · rfl
+  · intro r hsc hp hf hc hu hne
+    exact (key r hsc hp hf hc hu hne).2
 
 /-- **C07 `x_verifying_becomes_ready`** — for every lawful plane: when the plane's readiness predicate holds, a reconcile in
     `Verifying` reports `Ready` (with the ready time set) and touches nothing. -/
